@@ -62,7 +62,9 @@ func pool(t *gen.Ty, full bool) []*ref.V {
 	case tyLNum.Canon():
 		return []*ref.V{ref.ListV(gen.Num), ref.ListV(gen.Num, nums(1)...), ref.ListV(gen.Num, nums(1, 2)...), ref.ListV(gen.Num, nums(2, 1)...),
 			ref.ListV(gen.Num, nums(1, 1, 2)...), ref.ListV(gen.Num, nums(0.5, -1)...), ref.ListV(gen.Num, nums(1e300, gen.Pow63, math.Copysign(0, -1))...),
-			ref.ListV(gen.Num, nums(1, 2, 3)...), ref.ListV(gen.Num, nums(3, 1)...), ref.ListV(gen.Num, nums(3, 2, 1, 2, 3)...)}
+			ref.ListV(gen.Num, nums(1, 2, 3)...), ref.ListV(gen.Num, nums(3, 1)...), ref.ListV(gen.Num, nums(3, 2, 1, 2, 3)...),
+			// IEEE corner cases away from the first position
+			ref.ListV(gen.Num, nums(1, math.NaN())...), ref.ListV(gen.Num, nums(3, 2, math.NaN(), 1)...), ref.ListV(gen.Num, nums(0, math.Copysign(0, -1))...), ref.ListV(gen.Num, nums(math.Copysign(0, -1), 0)...)}
 	case tyLStr.Canon():
 		return []*ref.V{ref.ListV(gen.Str), ref.ListV(gen.Str, strs("a")...), ref.ListV(gen.Str, strs("a", "b")...), ref.ListV(gen.Str, strs("b", "a", "a")...),
 			ref.ListV(gen.Str, strs("a", "b", "c")...), ref.ListV(gen.Str, strs("c", "a")...)}
